@@ -130,6 +130,37 @@ func one(run *kit.Run, c caseFile, prog []hist.Op, k int, ending, id string) {
 				}
 				run.Count("in_txn_observations", 2)
 			}
+			// a snapshot of the write transaction is read-only: writing through it, committing or aborting it has no effect
+			// on the router, on the parent transaction or on the writer lock
+			if k > 0 {
+				snap := txn.Snapshot()
+				if snap == nil {
+					fail("snapshot", "Snapshot() of an open write transaction returned nil")
+					return
+				}
+				writable := false
+				if _, err := snap.Handle("GET", "/verif-snap", func(fox.Context) {}); !errors.Is(err, fox.ErrReadOnlyTxn) {
+					fail("snapshot-writable", "Handle through a snapshot of a write transaction returned %v instead of ErrReadOnlyTxn", err)
+					writable = true
+				}
+				if _, err := snap.Delete(c.Methods[0], c.Pool[0]); !errors.Is(err, fox.ErrReadOnlyTxn) {
+					fail("snapshot-writable", "Delete through a snapshot of a write transaction returned %v instead of ErrReadOnlyTxn", err)
+				}
+				if err := snap.Truncate(); !errors.Is(err, fox.ErrReadOnlyTxn) {
+					fail("snapshot-writable", "Truncate through a snapshot of a write transaction returned %v instead of ErrReadOnlyTxn", err)
+				}
+				if !writable { // a writable snapshot would release the parent's lock: the process would die on the double unlock
+					snap.Commit()
+					snap.Abort()
+				}
+				if got := w.Observe(w.F); got != before {
+					fail("snapshot-writable", "using a snapshot of the open transaction changed the router\n%s", hist.Diff(before, got))
+				}
+				if want, got := w.Expect(w.Pending), w.Observe(txn); want != got {
+					fail("snapshot-writable", "using a snapshot of the open transaction changed the transaction\n%s", hist.Diff(want, got))
+				}
+				run.Count("write_txn_snapshots_exercised", 1)
+			}
 		}
 		var txn *fox.Txn
 		var escaped any
